@@ -81,12 +81,12 @@ def check(prop, tier, seed):
         print(f"  thread_errors={agg['thread_errors']}")
     for ln in lines:
         print(ln)
-    if harness_problems:
-        for h in harness_problems:
-            print("HARNESS-ERROR:", h)
-        return 2
+    for h in harness_problems:
+        print("HARNESS-ERROR:", h)
     if new_sigs:
-        return 1
+        return 1      # a violation was found and is reported with its replay file (harness problems are printed too)
+    if harness_problems:
+        return 2
     print(f"OK property={prop} held on everything explored")
     return 0
 
